@@ -7,5 +7,5 @@ mkdir -p bin evidence replays
 go build -o bin/vrewrite ./engine/vrewrite
 go build -o bin/vcheck ./cmd/vcheck
 (cd /repo && go build ./... )
-./bin/vcheck --build-only
+./bin/vcheck --build-only --with-race
 echo "setup ok"
